@@ -45,7 +45,7 @@ class ModSim(Sim):
     PROBES = ["shared_parameter_two_names", "shared_module_two_parents", "reassign_module_to_param", "reassign_param_to_module",
               "reassign_to_none", "reassign_to_plain", "reassign_same_kind", "wrong_type_registration_refused", "assign_before_init_refused",
               "depth3", "train_eval_on_inner_node", "freeze_on_inner_node", "zero_grad_with_unreachable_grads", "sequential_positional",
-              "sequential_ordered_dict", "sequential_call", "explicit_register_api", "num_params_mixed_trainable"]
+              "sequential_ordered_dict", "sequential_call", "explicit_register_api", "num_params_mixed_trainable", "freeze_inside_no_grad"]
     RULE = ("one run = a seeded sequence of construction/assignment/registration/mode/freeze/zero_grad/query events on a forest of modules; "
             "distinct = hash of the event-kind sequence with the sharing/re-assignment pattern; non-trivial = some module reached depth >= 2 "
             "or a name was re-assigned or an object was shared")
@@ -188,7 +188,7 @@ class ModSim(Sim):
         if r < 0.54:
             return {"k": "mode", "mod": rng.choice(mids), "v": rng.choice(["train", "eval"])}
         if r < 0.64:
-            return {"k": rng.choice(["freeze", "unfreeze"]), "mod": rng.choice(mids)}
+            return {"k": rng.choice(["freeze", "unfreeze"]), "mod": rng.choice(mids), "in_no_grad": rng.random() < 0.25}
         if r < 0.72:
             return {"k": "grads"}
         if r < 0.80:
@@ -393,7 +393,13 @@ class ModSim(Sim):
         reach = self._reach_params(st, mod)
         allp = self._all_params(st)
         before = {id(p): bool(p.requires_grad) for p in allp}
-        st.must("C12.freeze_raises", "freeze()/unfreeze()", m.freeze if freeze else m.unfreeze)
+        if ev.get("in_no_grad"):
+            # e.g. at the end of an evaluation phase: the call must act the same whatever the grad mode
+            st.probes["freeze_inside_no_grad"] += 1
+            with st.SG.sg.no_grad():
+                st.must("C12.freeze_raises", "freeze()/unfreeze() inside no_grad", m.freeze if freeze else m.unfreeze)
+        else:
+            st.must("C12.freeze_raises", "freeze()/unfreeze()", m.freeze if freeze else m.unfreeze)
         for p in allp:
             want = (not freeze) if any(p is q for q in reach) else before[id(p)]
             if bool(p.requires_grad) != want:
